@@ -25,6 +25,9 @@ def relation(loose, strict):
 
 
 def fr(d):
+    if d.get('_ints'):
+        # whole numbers handed over as Python ints (an integer-typed span), not as exact rationals standing for floats
+        return {k: v for k, v in d.items() if k != '_ints'}
     return {k: (Fr(v) if isinstance(v, int) and not isinstance(v, bool) else (tuple(a if a is None or a != a else Fr(a) for a in v) if isinstance(v, tuple) else v)) for k, v in d.items()}
 
 
@@ -47,6 +50,13 @@ def pairs():
         (dict(valid_span=(None, 5)), dict(valid_span=(2, 5))),
         (dict(valid_span=(1, None)), dict(valid_span=(1, 3))),
         (dict(valid_span=(1, 5), end_inclusive=True), dict(valid_span=(1, 4), end_inclusive=True)),
+    ], [1, 2], 1)
+    # integer-typed data: a loose span whose bounds do not fit the storage type of the data (uint8: -1, 256, 300) is still a span of numbers
+    yield ('valid_range_test', lambda p: [data_input('inp', p, carrier='ndarray_u1')], [
+        (dict(valid_span=(-1, 256), _ints=True), dict(valid_span=(0, 255), _ints=True)),
+        (dict(valid_span=(-1, 300), end_inclusive=True, _ints=True), dict(valid_span=(2, 200), end_inclusive=True, _ints=True)),
+        (dict(valid_span=(0, 300), _ints=True), dict(valid_span=(0, 100), _ints=True)),
+        (dict(valid_span=(-1, 256)), dict(valid_span=(0, 255))),
     ], [1, 2], 1)
     yield ('spike_test', lambda p: [data_input('inp', p)], [
         (dict(suspect_threshold=2, fail_threshold=4), dict(suspect_threshold=1, fail_threshold=3)),
@@ -81,6 +91,11 @@ def pairs():
         (dict(fail_threshold=-3), dict(suspect_threshold=-1, fail_threshold=-3)),
         (dict(suspect_threshold=-1), dict(suspect_threshold=-1, fail_threshold=-1)),
         (dict(suspect_threshold=-2, fail_threshold=-4), dict(suspect_threshold=-2, fail_threshold=-1)),
+        # "not smaller" crosses zero: a positive threshold (the density must grow by at least that much) is stricter than any negative one
+        (dict(fail_threshold=-1), dict(fail_threshold=2)),
+        (dict(suspect_threshold=-1, fail_threshold=-3), dict(suspect_threshold=3, fail_threshold=1)),
+        (dict(suspect_threshold=-1), dict(suspect_threshold=0)),
+        (dict(suspect_threshold=1, fail_threshold=-1), dict(suspect_threshold=2, fail_threshold=1)),
     ], [2, 3], 1)
     yield ('location_test', lambda p: [data_input('lon', p[0]), data_input('lat', p[1])], [
         (dict(bbox=(-10, -20, 10, 20)), dict(bbox=(-5, -10, 5, 10))),
@@ -125,6 +140,10 @@ def run(ck):
                 plist = pats if ninp == 1 else [(a, b) for a in pats for b in pats if thorough or (a.count('m') + b.count('m') <= 1)]
                 for p in plist:
                     outs = []
+                    try:
+                        build(p)
+                    except ValueError:
+                        continue            # a carrier that cannot hold this pattern (integers have no missing value)
                     for kw in (loose, strict):
                         c = Case(test, build(p), fr(kw), n=n, pat={'inp': p} if ninp == 1 else {'lon': p[0], 'lat': p[1]},
                                  meta={'class': 'pair', 't': [100 + 10 * i for i in range(n)]})
